@@ -2,7 +2,7 @@
     are immutable and appear or disappear as a whole. *)
 From Coq Require Import ZArith NArith List Bool Lia Permutation.
 From Coq Require Import ZifyBool ZifyNat ZifyN.
-From Snel Require Import Model.Shard Proofs.ShardC03Proofs Model.Compaction Proofs.CompactionProofs.
+From Snel Require Import Gen.Params Model.Shard Proofs.ShardC03Proofs Model.Compaction Proofs.CompactionProofs.
 Import ListNotations.
 Open Scope N_scope.
 Ltac Zify.zify_post_hook ::= Z.div_mod_to_equations.
@@ -484,6 +484,432 @@ Proof.
   - apply Hj, (ob_dr_input s b), Hi.
 Qed.
 
+(** * Output ids within one process lifetime
+
+    [PStart] marks the start of a planning round (hook point cs).  The state carries
+    the planner's bookkeeping of the lifetime: [p_lab], the index labels at every
+    round start so far ([Compaction.seen_round_start]); [p_routs], the output ids
+    taken in the current round ([seen_batch]); and [p_rix], the index of the current
+    round start, against which the batches of the round are planned.  A crash or
+    restart label ENDS the lifetime: [p_lab] is reset to [[]] (the engine's set of
+    remembered labels lives in process memory).  [p_ok] accumulates the guards of
+    every non-crash step ([cstep_ok]) and, for every [CWrite b], [batch_ok_fresh]
+    w.r.t. [p_routs ++ p_lab]. *)
+Inductive plabel := PStart | PStep (c : clabel).
+
+Record pst := mkP { p_s : shard; p_lab : list N; p_routs : list N; p_rix : list (N * list N); p_ok : bool }.
+
+Definition is_crash_c (c : clabel) : bool := match c with CBase x => is_crash x | _ => false end.
+
+Definition pstep (k : N) (p : pst) (l : plabel) : pst :=
+  match l with
+  | PStart => mkP (p_s p) (seen_round_start (p_lab p) (index (p_s p))) [] (index (p_s p)) (p_ok p)
+  | PStep c =>
+      if is_crash_c c then mkP (cstep (p_s p) c) [] [] [] (p_ok p)
+      else match c with
+           | CWrite b => mkP (cstep (p_s p) c) (p_lab p) (seen_batch (p_routs p) b) (p_rix p)
+                             (p_ok p && cstep_ok (p_s p) c && batch_ok_fresh (p_routs p ++ p_lab p) (p_rix p) k b)
+           | _ => mkP (cstep (p_s p) c) (p_lab p) (p_routs p) (p_rix p) (p_ok p && cstep_ok (p_s p) c)
+           end
+  end.
+
+Definition prun (k : N) (p : pst) (ls : list plabel) : pst := fold_left (pstep k) ls p.
+Definition pinit (c : N) : pst := mkP (init c) [] [] [] true.
+
+(** no crash / restart label: the history lies inside one lifetime *)
+Definition no_pcrash (ls : list plabel) : Prop :=
+  forall c, In (PStep c) ls -> is_crash_c c = false.
+(** no round start: the history lies inside one planning round *)
+Definition no_pstart (ls : list plabel) : Prop := ~ In PStart ls.
+
+Lemma prun_app k p a b : prun k p (a ++ b) = prun k (prun k p a) b.
+Proof. unfold prun. apply fold_left_app. Qed.
+
+Lemma prun_snoc k p a l : prun k p (a ++ [l]) = pstep k (prun k p a) l.
+Proof. rewrite prun_app. reflexivity. Qed.
+
+Lemma fresh_flag : compaction_ids_fresh_in_lifetime = true.
+Proof. reflexivity. Qed.
+
+Lemma batch_ok_fresh_spec seen ix k b :
+  batch_ok_fresh seen ix k b = true <-> batch_ok ix k b = true /\ ~ In (b_out b) seen.
+Proof.
+  unfold batch_ok_fresh. rewrite fresh_flag, andb_true_iff, negb_true_iff, memb_false. reflexivity.
+Qed.
+
+Lemma pstep_ok k p l : p_ok (pstep k p l) = true -> p_ok p = true.
+Proof.
+  destruct l as [|c]; cbn [pstep p_ok]; [auto|].
+  destruct (is_crash_c c); cbn [p_ok]; [auto|].
+  destruct c; cbn [p_ok]; intros H; repeat (apply andb_true_iff in H as [H _]); exact H.
+Qed.
+
+Lemma prun_ok_prefix k p a : forall b, p_ok (prun k p (a ++ b)) = true -> p_ok (prun k p a) = true.
+Proof.
+  intros b. induction b as [|l b IH] using rev_ind; [rewrite app_nil_r; auto|].
+  rewrite app_assoc, prun_snoc. intros H. apply IH, (pstep_ok _ _ _ H).
+Qed.
+
+(** what a non-crash step with [p_ok] does *)
+Lemma pstep_inv k p l :
+  p_ok (pstep k p l) = true ->
+  match l with
+  | PStart => p_s (pstep k p l) = p_s p /\ p_lab (pstep k p l) = index_labels (index (p_s p)) ++ p_lab p
+              /\ p_routs (pstep k p l) = []
+  | PStep c =>
+      is_crash_c c = false ->
+      p_s (pstep k p l) = cstep (p_s p) c /\ cstep_ok (p_s p) c = true /\ p_lab (pstep k p l) = p_lab p /\
+      match c with
+      | CWrite b => p_routs (pstep k p l) = b_out b :: p_routs p /\ ~ In (b_out b) (p_routs p ++ p_lab p)
+                    /\ batch_ok (p_rix p) k b = true
+      | _ => p_routs (pstep k p l) = p_routs p
+      end
+  end.
+Proof.
+  destruct l as [|c]; cbn [pstep]; [intros _; repeat split; reflexivity|].
+  intros H Hc. rewrite Hc in *. destruct c as [x|b|b|b dr|dr]; cbn [p_ok p_s p_lab p_routs] in *;
+    try (apply andb_true_iff in H as [H G]; split; [reflexivity|]; split; [exact G|]; split; reflexivity).
+  apply andb_true_iff in H as [H F]. apply andb_true_iff in H as [H G].
+  apply batch_ok_fresh_spec in F as [F1 F2]. repeat split; assumption.
+Qed.
+
+Lemma no_pcrash_app a b : no_pcrash (a ++ b) <-> no_pcrash a /\ no_pcrash b.
+Proof.
+  unfold no_pcrash. split.
+  - intros H. split; intros c Hc; apply H, in_app_iff; auto.
+  - intros [H1 H2] c Hc. apply in_app_iff in Hc as [Hc|Hc]; auto.
+Qed.
+
+Lemma no_pstart_app a b : no_pstart (a ++ b) <-> no_pstart a /\ no_pstart b.
+Proof. unfold no_pstart. rewrite in_app_iff. tauto. Qed.
+
+(** [p_lab] only grows inside a lifetime, [p_routs] only grows inside a round *)
+Lemma prun_lab_mono k p ls x :
+  no_pcrash ls -> p_ok (prun k p ls) = true -> In x (p_lab p) -> In x (p_lab (prun k p ls)).
+Proof.
+  induction ls as [|l ls IH] using rev_ind; intros Hc H Hx; [exact Hx|].
+  apply no_pcrash_app in Hc as [Hc1 Hc2]. rewrite prun_snoc in *.
+  specialize (IH Hc1 (pstep_ok _ _ _ H) Hx). pose proof (pstep_inv _ _ _ H) as I. destruct l as [|c].
+  - destruct I as (_ & E & _). rewrite E. apply in_app_iff. right. exact IH.
+  - destruct (I (Hc2 c (or_introl eq_refl))) as (_ & _ & E & _). rewrite E. exact IH.
+Qed.
+
+Lemma prun_routs_mono k p ls x :
+  no_pcrash ls -> no_pstart ls -> p_ok (prun k p ls) = true -> In x (p_routs p) -> In x (p_routs (prun k p ls)).
+Proof.
+  induction ls as [|l ls IH] using rev_ind; intros Hc Hs H Hx; [exact Hx|].
+  apply no_pcrash_app in Hc as [Hc1 Hc2]. apply no_pstart_app in Hs as [Hs1 Hs2]. rewrite prun_snoc in *.
+  specialize (IH Hc1 Hs1 (pstep_ok _ _ _ H) Hx). pose proof (pstep_inv _ _ _ H) as I. destruct l as [|c].
+  - exfalso. apply Hs2. left. reflexivity.
+  - destruct (I (Hc2 c (or_introl eq_refl))) as (_ & _ & _ & E). destruct c; try (rewrite E; exact IH).
+    destruct E as [E _]. rewrite E. right. exact IH.
+Qed.
+
+(** Every output id is new: it differs from every label that was in the index at
+    any round start of the lifetime so far (and from the labels remembered at the
+    beginning), and from every output id taken earlier in the same round. *)
+Theorem ids_fresh_in_lifetime : forall k p ls,
+  no_pcrash ls -> p_ok (prun k p ls) = true ->
+  forall l1 b l2, ls = l1 ++ PStep (CWrite b) :: l2 ->
+    ~ In (b_out b) (p_lab p) /\
+    (forall a r, l1 = a ++ PStart :: r -> ~ In (b_out b) (index_labels (index (p_s (prun k p a))))) /\
+    (forall a b' r, l1 = a ++ PStep (CWrite b') :: r -> no_pstart r -> b_out b' <> b_out b).
+Proof.
+  intros k p ls Hc Hok l1 b l2 ->.
+  change (l1 ++ PStep (CWrite b) :: l2) with (l1 ++ [PStep (CWrite b)] ++ l2) in *.
+  rewrite app_assoc in Hok. apply prun_ok_prefix in Hok.
+  apply no_pcrash_app in Hc as [Hc1 Hc2].
+  rewrite prun_snoc in Hok. pose proof (pstep_inv _ _ _ Hok) as I. cbn beta iota in I.
+  destruct (I eq_refl) as (_ & _ & _ & _ & Hfresh & _). apply pstep_ok in Hok.
+  rewrite in_app_iff in Hfresh.
+  split; [|split].
+  - intros Hx. apply Hfresh. right. apply prun_lab_mono; assumption.
+  - intros a r -> Hx.
+    change (a ++ PStart :: r) with (a ++ [PStart] ++ r) in *.
+    rewrite app_assoc in *. apply no_pcrash_app in Hc1 as [Hca Hcr].
+    apply Hfresh. right. rewrite prun_app. apply prun_lab_mono; [exact Hcr | rewrite <- prun_app; exact Hok|].
+    pose proof (prun_ok_prefix _ _ _ _ Hok) as Hoka. rewrite prun_snoc in *.
+    destruct (pstep_inv _ _ _ Hoka) as (_ & Es & _). rewrite Es. apply in_app_iff. left. exact Hx.
+  - intros a b' r -> Hs E.
+    change (a ++ PStep (CWrite b') :: r) with (a ++ [PStep (CWrite b')] ++ r) in *.
+    rewrite app_assoc in *. apply no_pcrash_app in Hc1 as [Hca Hcr].
+    apply Hfresh. left. rewrite prun_app. apply prun_routs_mono; [exact Hcr | exact Hs | rewrite <- prun_app; exact Hok|].
+    pose proof (prun_ok_prefix _ _ _ _ Hok) as Hoka. rewrite prun_snoc in *.
+    destruct (pstep_inv _ _ _ Hoka eq_refl) as (_ & _ & _ & Es & _). rewrite Es, E. left. reflexivity.
+Qed.
+
+(** the output ids of a history, in order *)
+Fixpoint outs (ls : list plabel) : list N :=
+  match ls with
+  | [] => []
+  | PStep (CWrite b) :: r => b_out b :: outs r
+  | _ :: r => outs r
+  end.
+
+Lemma outs_in ls x : In x (outs ls) -> exists a b r, ls = a ++ PStep (CWrite b) :: r /\ b_out b = x.
+Proof.
+  induction ls as [|l r IH]; cbn [outs]; [intros []|].
+  assert (G : In x (outs r) -> exists a b r0, l :: r = a ++ PStep (CWrite b) :: r0 /\ b_out b = x).
+  { intros H. destruct (IH H) as (a & b & r0 & -> & E). exists (l :: a), b, r0. split; [reflexivity | exact E]. }
+  destruct l as [|c]; [exact G|]. destruct c; try exact G.
+  intros [<-|H]; [exists [], b, r; split; reflexivity | exact (G H)].
+Qed.
+
+Lemma outs_app a b : outs (a ++ b) = outs a ++ outs b.
+Proof.
+  induction a as [|l a IH]; [reflexivity|]. cbn [app outs]. destruct l as [|c]; [exact IH|].
+  destruct c; cbn [app]; rewrite IH; reflexivity.
+Qed.
+
+(** inside one planning round the output ids are pairwise distinct *)
+Theorem round_outs_nodup : forall k p ls,
+  no_pcrash ls -> no_pstart ls -> p_ok (prun k p ls) = true -> NoDup (outs ls).
+Proof.
+  intros k p ls. induction ls as [|l ls IH] using rev_ind; intros Hc Hs Hok; [constructor|].
+  apply no_pcrash_app in Hc as Hc'. destruct Hc' as [Hc1 _]. apply no_pstart_app in Hs as Hs'. destruct Hs' as [Hs1 _].
+  pose proof (prun_ok_prefix _ _ _ _ Hok) as Hok1. specialize (IH Hc1 Hs1 Hok1).
+  rewrite outs_app. destruct l as [|c]; [cbn [outs]; rewrite app_nil_r; exact IH|].
+  destruct c; cbn [outs]; rewrite ?app_nil_r; try exact IH.
+  apply nodup_app. split; [exact IH|]. split; [repeat constructor; intros []|].
+  intros x Hx [<-|[]]. apply outs_in in Hx as (a & b' & r & -> & E).
+  destruct (ids_fresh_in_lifetime k p _ Hc Hok _ b [] eq_refl) as (_ & _ & H).
+  apply no_pstart_app in Hs1 as [_ Hr]. unfold no_pstart in Hr. cbn [In] in Hr.
+  refine (H a b' r eq_refl _ E). intros Hin. apply Hr. right. exact Hin.
+Qed.
+
+(** ** a published name is not created again in the lifetime *)
+
+Lemma fw_shape s l :
+  (dirs (fw_step s l) = dirs s /\ alloc0 (fw_step s l) = alloc0 s /\
+   forall j', In j' (jobs (fw_step s l)) -> In (jseg j') (map jseg (jobs s)))
+  \/ (exists j rest r, jobs s = j :: rest /\ dirs (fw_step s l) = dir_add_rows (dirs s) (jseg j) r /\
+        jobs (fw_step s l) = jobs s /\ alloc0 (fw_step s l) = alloc0 s).
+Proof.
+  unfold fw_step. destruct (jobs s) as [|j rest] eqn:Hj.
+  { left. rewrite Hj. split; [reflexivity|]. split; [reflexivity|]. intros j' []. }
+  destruct l; destruct (jstage j) eqn:Hst;
+    repeat match goal with |- context [if ?c then _ else _] => destruct c end;
+    first [ left; unfold set_jobs; cbn [dirs jobs alloc0]; rewrite ?Hj; split; [reflexivity|]; split; [reflexivity|];
+            intros j' Hj'; cbn [map];
+            first [ exact (in_map jseg _ _ Hj')
+                  | destruct Hj' as [<-|Hj']; [left; reflexivity | right; exact (in_map jseg _ _ Hj')]
+                  | right; exact (in_map jseg _ _ Hj') ]
+          | right; exists j, rest; eexists; cbn [dirs jobs alloc0]; rewrite ?Hj;
+            split; [reflexivity|]; split; [reflexivity|]; split; reflexivity ].
+Qed.
+
+Lemma step_shape s x :
+  is_crash x = false ->
+  (dirs (step s x) = dirs s /\ alloc0 s <= alloc0 (step s x) /\
+   forall j', In j' (jobs (step s x)) ->
+     In (jseg j') (map jseg (jobs s)) \/ (jseg j' = alloc0 s /\ alloc0 (step s x) = N.succ (alloc0 s)))
+  \/ (exists j rest r, jobs s = j :: rest /\ dirs (step s x) = dir_add_rows (dirs s) (jseg j) r /\
+        jobs (step s x) = jobs s /\ alloc0 (step s x) = alloc0 s).
+Proof.
+  intros Hx. destruct x; try discriminate; cbn [step].
+  - left. unfold store. cbv zeta. destruct (cap s <=? len _); unfold rotate; cbn [dirs alloc0 jobs mem].
+    + split; [reflexivity|]. split; [lia|]. intros j' Hj'. apply in_app_iff in Hj' as [Hj'|[<-|[]]].
+      * left. apply in_map, Hj'.
+      * right. split; reflexivity.
+    + split; [reflexivity|]. split; [lia|]. intros j' Hj'. left. apply in_map, Hj'.
+  - left. unfold flush_cmd, rotate. cbn [dirs alloc0 jobs]. split; [reflexivity|]. split; [lia|].
+    intros j' Hj'. apply in_app_iff in Hj' as [Hj'|[<-|[]]]; [left; apply in_map, Hj' | right; split; reflexivity].
+  - left. unfold wal_write. destruct (walq s); cbn [dirs alloc0 jobs]; (split; [reflexivity|]); (split; [lia|]);
+      intros j' Hj'; left; apply in_map, Hj'.
+  - left. unfold wal_rotate. destruct (cap s <=? wcnt s); cbn [dirs alloc0 jobs]; (split; [reflexivity|]); (split; [lia|]);
+      intros j' Hj'; left; apply in_map, Hj'.
+  - destruct (fw_shape s l) as [(E1 & E2 & E3)|H]; [left | right; exact H].
+    split; [exact E1|]. split; [rewrite E2; lia|]. intros j' Hj'. left. apply E3, Hj'.
+Qed.
+
+Lemma has_dir_add_iff ds seg r i : has_dir (dir_add_rows ds seg r) i <-> has_dir ds i \/ i = seg.
+Proof.
+  split.
+  - intros (d & Hd & E). apply add_sid in Hd as [Hd|Hd]; [right; congruence | left; exists d; auto].
+  - intros [H| ->]; [apply has_dir_add, H|]. apply has_dir_sids. rewrite add_rows_sids.
+    destruct (has_dirb ds seg) eqn:E; [apply has_dir_sids, has_dirb_true, E|].
+    apply in_app_iff. right. left. reflexivity.
+Qed.
+
+(** [E] over-approximates the names that have had a directory in this lifetime;
+    the level-0 names among them are below the level-0 allocator, and a queued
+    flush job whose name is among them still has its directory *)
+Record LI (s : shard) (E : N -> Prop) : Prop := {
+  li_ci : CI s;
+  li_dir : forall i, has_dir (dirs s) i -> E i;
+  li_lo : forall i, E i -> i < level_span -> i < alloc0 s;
+  li_job : forall j, In j (jobs s) -> E (jseg j) -> has_dir (dirs s) (jseg j) }.
+
+Lemma li_step s c (E E' : N -> Prop) :
+  LI s E -> cstep_ok s c = true ->
+  (forall i, E' i <-> E i \/ has_dir (dirs (cstep s c)) i) ->
+  LI (cstep s c) E' /\
+  (forall i, i < level_span -> ~ has_dir (dirs s) i -> has_dir (dirs (cstep s c)) i -> ~ E i).
+Proof.
+  intros L G HE. destruct L as [Lci Ldir Llo Ljob].
+  pose proof (ci_cstep s c Lci G) as Lci'.
+  destruct c as [x|b|b|b dr|dr]; cbn [cstep cstep_ok] in *.
+  - (* base label *)
+    apply andb_true_iff in G as [G1 G2]. apply negb_true_iff in G1. apply N.leb_le in G2.
+    destruct (step_shape s x G1) as [(Ed & Ea & Ej)|(j & rest & r & Hj & Ed & Ejb & Ea)].
+    + rewrite Ed in HE.
+      assert (HE2 : forall i, E' i <-> E i) by (intros i; rewrite HE; split; [intros [H|H]; auto | auto]).
+      split; [|rewrite Ed; intros i _ H1 H2; contradiction].
+      split; auto.
+      * rewrite Ed. intros i Hi. apply HE2, Ldir, Hi.
+      * intros i Hi Hl. apply HE2 in Hi. specialize (Llo i Hi Hl). lia.
+      * rewrite Ed. intros j Hj Hi. apply HE2 in Hi. destruct (Ej j Hj) as [Hin|[E1 E2]].
+        -- apply in_map_iff in Hin as (j0 & E0 & Hj0). rewrite <- E0 in *. apply Ljob; assumption.
+        -- exfalso. rewrite E1 in Hi. assert (alloc0 s < level_span) by lia. specialize (Llo _ Hi H). lia.
+    + rewrite Ed in HE. rewrite Ed.
+      assert (Hseg : jseg j < alloc0 s) by (apply (c_jlt _ _ _ _ _ Lci); rewrite Hj; left; reflexivity).
+      split.
+      * split; auto; rewrite ?Ed, ?Ejb, ?Ea.
+        -- intros i Hi. apply HE. right. exact Hi.
+        -- intros i Hi Hl. apply HE in Hi as [Hi|Hi]; [apply Llo; assumption|].
+           apply has_dir_add_iff in Hi as [Hi| ->]; [apply Llo; [apply Ldir, Hi | exact Hl] | exact Hseg].
+        -- intros j0 Hj0 Hi. apply HE in Hi as [Hi|Hi]; [apply has_dir_add, Ljob; assumption | exact Hi].
+      * intros i _ Hn Hi. apply has_dir_add_iff in Hi as [Hi| ->]; [contradiction|].
+        intros HEi. apply Hn, Ljob; [rewrite Hj; left; reflexivity | exact HEi].
+  - (* CWrite *)
+    apply andb_true_iff in G as [G1 G2]. apply N.leb_le in G1. apply negb_true_iff in G2.
+    rewrite has_dirb_false in G2. unfold cp_write in *. cbn [dirs jobs alloc0] in *.
+    assert (Hd : forall i, has_dir (filter (fun d => negb (sid d =? b_out b)) (dirs s) ++
+                 [mkSeg (b_out b) (filter (fun e => negb (memb (euid e) (b_uids b))) (rows_of (dirs s) (b_out b))
+                                   ++ batch_rows (dirs s) b)]) i <-> has_dir (dirs s) i \/ i = b_out b).
+    { intros i. split.
+      - intros (d & Hd & E0). apply in_app_iff in Hd as [Hd|[<-|[]]]; [|right; symmetry; exact E0].
+        apply filter_In in Hd as [Hd _]. left. exists d. auto.
+      - intros [(d & Hd & E0)| ->].
+        + exists d. split; [|exact E0]. apply in_app_iff. left. apply filter_In. split; [exact Hd|].
+          apply negb_true_iff, N.eqb_neq, G2, Hd.
+        + eexists. split; [apply in_app_iff; right; left; reflexivity | reflexivity]. }
+    split.
+    + split; auto.
+      * intros i Hi. apply HE. right. exact Hi.
+      * intros i Hi Hl. apply HE in Hi as [Hi|Hi]; [apply Llo; assumption|].
+        apply Hd in Hi as [Hi| ->]; [apply Llo; [apply Ldir, Hi | exact Hl] | lia].
+      * intros j Hj Hi. apply Hd. apply HE in Hi as [Hi|Hi]; [left; apply Ljob; assumption|]. apply Hd, Hi.
+    + intros i Hl Hn Hi. apply Hd in Hi as [Hi| ->]; [contradiction | lia].
+  - (* CIndex *)
+    unfold cp_index in *. cbn [dirs jobs alloc0] in *.
+    assert (HE2 : forall i, E' i <-> E i) by (intros i; rewrite HE; split; [intros [H|H]; auto | auto]).
+    split; [|intros i _ H1 H2; contradiction].
+    split; auto.
+    + intros i Hi. apply HE2, Ldir, Hi.
+    + intros i Hi. apply Llo, HE2, Hi.
+    + intros j Hj Hi. apply Ljob; [exact Hj | apply HE2, Hi].
+  - (* CLive *)
+    unfold cp_live in *. cbn [dirs jobs alloc0] in *.
+    assert (HE2 : forall i, E' i <-> E i) by (intros i; rewrite HE; split; [intros [H|H]; auto | auto]).
+    split; [|intros i _ H1 H2; contradiction].
+    split; auto.
+    + intros i Hi. apply HE2, Ldir, Hi.
+    + intros i Hi. apply Llo, HE2, Hi.
+    + intros j Hj Hi. apply Ljob; [exact Hj | apply HE2, Hi].
+  - (* CReclaim *)
+    unfold cp_reclaim in *. cbn [dirs jobs alloc0] in *. rewrite forallb_forall in G.
+    assert (Hsub : forall i, has_dir (filter (fun d => negb (memb (sid d) dr)) (dirs s)) i -> has_dir (dirs s) i).
+    { intros i (d & Hd & E0). apply filter_In in Hd as [Hd _]. exists d. auto. }
+    assert (HE2 : forall i, E' i <-> E i).
+    { intros i. rewrite HE. split; [intros [H|H]; [exact H | apply Ldir, Hsub, H] | auto]. }
+    split; [|intros i _ H1 H2; exfalso; apply H1, Hsub, H2].
+    split; auto.
+    + intros i Hi. apply HE2, Ldir, Hsub, Hi.
+    + intros i Hi. apply Llo, HE2, Hi.
+    + intros j Hj Hi. apply HE2 in Hi. destruct (Ljob j Hj Hi) as (d & Hd & E0). exists d. split; [|exact E0].
+      apply filter_In. split; [exact Hd|]. apply negb_true_iff, memb_false. intros Hdr. apply G in Hdr.
+      apply andb_true_iff in Hdr as [_ H3]. apply negb_true_iff, memb_false in H3. apply H3.
+      rewrite E0. apply in_map, Hj.
+Qed.
+
+(** names that had a directory at some state of the history so far *)
+Definition Ever (k : N) (p : pst) (ls : list plabel) (i : N) : Prop :=
+  exists n, has_dir (dirs (p_s (prun k p (firstn n ls)))) i.
+
+Lemma ever_snoc k p ls l i :
+  Ever k p (ls ++ [l]) i <-> Ever k p ls i \/ has_dir (dirs (p_s (prun k p (ls ++ [l])))) i.
+Proof.
+  unfold Ever. split.
+  - intros (n & H). destruct (Nat.le_gt_cases n (length ls)) as [Hn|Hn].
+    + left. exists n. rewrite firstn_app in H. replace (n - length ls)%nat with 0%nat in H by lia.
+      cbn [firstn] in H. rewrite app_nil_r in H. exact H.
+    + right. rewrite firstn_all2 in H; [exact H | rewrite app_length; cbn [length]; lia].
+  - intros [(n & H)|H].
+    + destruct (Nat.le_gt_cases n (length ls)) as [Hn|Hn].
+      * exists n. rewrite firstn_app. replace (n - length ls)%nat with 0%nat by lia.
+        cbn [firstn]. rewrite app_nil_r. exact H.
+      * exists (length ls). rewrite firstn_app, firstn_all, Nat.sub_diag. cbn [firstn]. rewrite app_nil_r.
+        rewrite firstn_all2 in H by lia. exact H.
+    + exists (length (ls ++ [l])). rewrite firstn_all. exact H.
+Qed.
+
+Lemma li_run k c ls :
+  no_pcrash ls -> p_ok (prun k (pinit c) ls) = true ->
+  LI (p_s (prun k (pinit c) ls)) (Ever k (pinit c) ls).
+Proof.
+  induction ls as [|l ls IH] using rev_ind; intros Hc Hok.
+  - assert (Hnone : forall i, ~ Ever k (pinit c) [] i).
+    { intros i (n & Hn). rewrite firstn_nil in Hn. destruct Hn as (d & Hd & _). exact Hd. }
+    split.
+    + apply ci_init.
+    + intros i (d & Hd & _). destruct Hd.
+    + intros i Hi. destruct (Hnone i Hi).
+    + intros j Hj. destruct Hj.
+  - apply no_pcrash_app in Hc as [Hc1 Hc2]. rewrite prun_snoc in *.
+    specialize (IH Hc1 (pstep_ok _ _ _ Hok)). pose proof (pstep_inv _ _ _ Hok) as I.
+    destruct l as [|c0].
+    + destruct I as (Es & _). destruct IH as [A B C D]. rewrite Es. split; auto.
+      * intros i Hi. apply ever_snoc. left. apply B, Hi.
+      * intros i Hi. apply ever_snoc in Hi as [Hi|Hi]; [apply C, Hi|]. rewrite prun_snoc, Es in Hi. apply C, B, Hi.
+      * intros j Hj Hi. apply ever_snoc in Hi as [Hi|Hi]; [apply D; assumption|]. rewrite prun_snoc, Es in Hi. exact Hi.
+    + destruct (I (Hc2 c0 (or_introl eq_refl))) as (Es & G & _). rewrite Es.
+      refine (proj1 (li_step _ c0 _ _ IH G _)).
+      intros i. rewrite ever_snoc, prun_snoc, Es. reflexivity.
+Qed.
+
+(** A directory that a step of the first lifetime creates:
+    - on level 0 (a flush directory) its name had no directory at ANY earlier state
+      of the lifetime;
+    - above level 0 it is the output of a [CWrite] and its name was not listed in the
+      index at any earlier round start of the lifetime.
+    A name published once (listed in the index when some planning round started)
+    is therefore never created again before the next restart. *)
+Theorem name_never_recreated : forall k c ls,
+  no_pcrash ls -> p_ok (prun k (pinit c) ls) = true ->
+  forall l1 l l2 i, ls = l1 ++ l :: l2 ->
+    ~ has_dir (dirs (p_s (prun k (pinit c) l1))) i ->
+    has_dir (dirs (p_s (prun k (pinit c) (l1 ++ [l])))) i ->
+    (i < level_span -> forall n, ~ has_dir (dirs (p_s (prun k (pinit c) (firstn n l1)))) i) /\
+    (level_span <= i ->
+       (exists b, l = PStep (CWrite b) /\ b_out b = i) /\
+       forall a r, l1 = a ++ PStart :: r -> ~ In i (index_labels (index (p_s (prun k (pinit c) a))))).
+Proof.
+  intros k c ls Hc Hok l1 l l2 i Els Hn Hd. subst ls.
+  pose proof Hc as Hc0. pose proof Hok as Hok0.
+  change (l1 ++ l :: l2) with (l1 ++ [l] ++ l2) in Hc, Hok. rewrite app_assoc in Hc, Hok.
+  apply prun_ok_prefix in Hok. apply no_pcrash_app in Hc as [Hc _].
+  apply no_pcrash_app in Hc as Hc'. destruct Hc' as [Hc1 Hc2].
+  pose proof (li_run k c l1 Hc1 (prun_ok_prefix _ _ _ _ Hok)) as L.
+  rewrite prun_snoc in *. pose proof (pstep_inv _ _ _ Hok) as I.
+  destruct l as [|c0].
+  { destruct I as (Es & _). rewrite Es in Hd. contradiction. }
+  destruct (I (Hc2 c0 (or_introl eq_refl))) as (Es & G & _). rewrite Es in Hd.
+  split.
+  - intros Hlo n Hbefore.
+    destruct (li_step _ c0 _ (fun i => Ever k (pinit c) l1 i \/ has_dir (dirs (cstep (p_s (prun k (pinit c) l1)) c0)) i)
+                L G (fun i => conj (fun H => H) (fun H => H))) as [_ Hfresh].
+    apply (Hfresh i Hlo Hn Hd). exists n. exact Hbefore.
+  - intros Hhi.
+    destruct (dir_created_fresh _ c0 i (li_ci _ _ L) G Hn Hd) as [(b & -> & Eb & _)|(j & rest & Hj & Ej & _)].
+    + split; [exists b; split; [reflexivity | exact Eb]|]. intros a r Ea.
+      destruct (ids_fresh_in_lifetime k (pinit c) _ Hc0 Hok0 l1 b l2 eq_refl) as (_ & H & _).
+      rewrite <- Eb. exact (H a r Ea).
+    + exfalso. pose proof (li_ci _ _ L) as Ci.
+      assert (jseg j < alloc0 (p_s (prun k (pinit c) l1))) by (apply (c_jlt _ _ _ _ _ Ci); rewrite Hj; left; reflexivity).
+      pose proof (c_al _ _ _ _ _ Ci). lia.
+Qed.
+
 (** * Known findings and non-vacuity *)
 
 Lemma memb_true_in x l : memb x l = true -> In x l.
@@ -508,43 +934,129 @@ Definition whole (b : batch) (dr : list N) : list clabel := [CWrite b; CIndex b;
 (** one event of type 0 stored with capacity 1 and flushed completely *)
 Definition seg1 (n : N) : list clabel := map CBase ([LStore (mkEv n 0 0)] ++ flush_all [0]).
 
-(** Known finding SegmentLabelReused.  Capacity 1, k = 2, one type.  Segments 0..3;
-    round 1: [0;1] -> 10000, [2;3] -> 10001; round 2: [10000;10001] -> 20000 (10000 is
-    retired and its directory reclaimed); segments 4, 5; round 3: the allocator is
-    seeded from the index labels {20000, 4, 5}, so [4;5] -> 10000 again.  Every guard
-    of the crash-free theorem holds, every batch is [batch_ok]; the name 10000 is
-    published twice with different content. *)
+(** Former finding SegmentLabelReused (repaired by a19e65f).  Capacity 1, k = 2, one
+    type.  Segments 0..3; round 1: [0;1] -> 10000, [2;3] -> 10001; round 2:
+    [10000;10001] -> 20000 (10000 is retired and its directory reclaimed); segments
+    4, 5; round 3: an allocator seeded from the index labels {20000, 4, 5} alone would
+    hand out 10000 again for [4;5].  The history up to the start of round 3
+    satisfies every guard; [rb4] still satisfies [batch_ok] (a lower bound) but is
+    rejected by [batch_ok_fresh], because [p_lab] holds 10000 from the first two
+    round starts; the id the repaired allocator hands out, 10002, is accepted. *)
 Definition rb1 : batch := mkBatch 10000 [0; 1] [0].
 Definition rb2 : batch := mkBatch 10001 [2; 3] [0].
 Definition rb3 : batch := mkBatch 20000 [10000; 10001] [0].
 Definition rb4 : batch := mkBatch 10000 [4; 5] [0].
+Definition rb4' : batch := mkBatch 10002 [4; 5] [0].
 Definition reuse1 : list clabel := seg1 0 ++ seg1 1 ++ seg1 2 ++ seg1 3 ++ whole rb1 [0; 1].
 Definition reuse2 : list clabel := whole rb2 [2; 3] ++ whole rb3 [10000; 10001].
 Definition reuse3 : list clabel := seg1 4 ++ seg1 5 ++ whole rb4 [4; 5].
 
-Lemma label_reuse_refuted :
-  exists c k l1 l2 l3 b i,
-    let s1 := crun (init c) l1 in
-    let s2 := crun (init c) (l1 ++ l2) in
-    let s3 := crun (init c) (l1 ++ l2 ++ l3) in
-    hist_ok (init c) (l1 ++ l2 ++ l3) = true /\ policy_ok k (init c) (l1 ++ l2 ++ l3) = true /\
-    In (CWrite b) l3 /\ b_out b = i /\ batch_ok (index (crun (init c) (l1 ++ l2 ++ seg1 4 ++ seg1 5))) k b = true /\
-    In i (live s1) /\ In i (index_labels (index s1)) /\ rows_of (dirs s1) i = [mkEv 0 0 0; mkEv 1 0 0] /\
-    ~ In i (live s2) /\ ~ In i (index_labels (index s2)) /\ ~ has_dir (dirs s2) i /\
-    index s2 = [(20000, [0])] /\
-    In i (live s3) /\ In i (index_labels (index s3)) /\ rows_of (dirs s3) i = [mkEv 4 0 0; mkEv 5 0 0].
+Definition lift (ls : list clabel) : list plabel := map PStep ls.
+
+(** the same history with the round starts marked, up to the start of round 3 *)
+Definition reuse_p : list plabel :=
+  lift (seg1 0 ++ seg1 1 ++ seg1 2 ++ seg1 3) ++ [PStart] ++ lift (whole rb1 [0; 1] ++ whole rb2 [2; 3])
+  ++ [PStart] ++ lift (whole rb3 [10000; 10001]) ++ lift (seg1 4 ++ seg1 5) ++ [PStart].
+
+Lemma no_pcrash_b ls :
+  forallb (fun l => match l with PStep c => negb (is_crash_c c) | PStart => true end) ls = true -> no_pcrash ls.
 Proof.
-  exists 1, 2, reuse1, reuse2, reuse3, rb4, 10000. cbv zeta.
-  split; [vm_compute; reflexivity|]. split; [vm_compute; reflexivity|].
-  split; [unfold reuse3, whole; rewrite !in_app_iff; right; right; left; reflexivity|].
-  split; [reflexivity|]. split; [vm_compute; reflexivity|].
-  split; [apply memb_true_in; vm_compute; reflexivity|]. split; [apply memb_true_in; vm_compute; reflexivity|].
+  intros H c Hc. rewrite forallb_forall in H. apply H in Hc. apply negb_true_iff in Hc. exact Hc.
+Qed.
+
+Example label_reuse_rejected_example :
+  let p := prun 2 (pinit 1) reuse_p in
+  hist_ok (init 1) (reuse1 ++ reuse2 ++ reuse3) = true /\ policy_ok 2 (init 1) (reuse1 ++ reuse2 ++ reuse3) = true /\
+  no_pcrash reuse_p /\ p_ok p = true /\
+  p_rix p = [(20000, [0]); (4, [0]); (5, [0])] /\ In 10000 (p_lab p) /\
+  batch_ok (p_rix p) 2 rb4 = true /\ batch_ok_fresh (p_routs p ++ p_lab p) (p_rix p) 2 rb4 = false /\
+  p_ok (prun 2 (pinit 1) (reuse_p ++ lift (whole rb4 [4; 5]))) = false /\
+  batch_ok_fresh (p_routs p ++ p_lab p) (p_rix p) 2 rb4' = true /\
+  p_ok (prun 2 (pinit 1) (reuse_p ++ lift (whole rb4' [4; 5]))) = true.
+Proof.
+  cbv zeta. split; [vm_compute; reflexivity|]. split; [vm_compute; reflexivity|].
+  split; [apply no_pcrash_b; vm_compute; reflexivity|]. split; [vm_compute; reflexivity|].
+  split; [vm_compute; reflexivity|]. split; [apply memb_true_in; vm_compute; reflexivity|].
+  vm_conj.
+Qed.
+
+(** Across a restart the bookkeeping is gone ([p_lab] is reset, as the engine's set
+    of remembered labels lives in process memory) and a retired output id IS handed
+    out again.  Capacity 1, k = 4, one type.  Lifetime A: segments 0..8; round 1:
+    [0;1;2;3] -> 10000, [4;5;6;7] -> 10001 (8 is left over); round 2: [10000;10001]
+    -> 20000, both reclaimed.  Crash, restart (level-0 allocator continues at 9).
+    Lifetime B: segments 9, 10, 11; round 3: the index labels are {20000, 8..11}, so
+    [8;9;10;11] -> 10000 satisfies [batch_ok_fresh] and every guard: the name 10000 is
+    published a second time with other rows.  (Model-level; no level-0 name is
+    reused in this history.) *)
+Fixpoint segs (a : N) (n : nat) : list clabel :=
+  match n with O => [] | S m => seg1 a ++ segs (N.succ a) m end.
+Definition xb1 : batch := mkBatch 10000 [0; 1; 2; 3] [0].
+Definition xb2 : batch := mkBatch 10001 [4; 5; 6; 7] [0].
+Definition xb3 : batch := mkBatch 20000 [10000; 10001] [0].
+Definition xb4 : batch := mkBatch 10000 [8; 9; 10; 11] [0].
+Definition lifeA1 : list plabel :=
+  lift (segs 0 9) ++ [PStart] ++ lift (whole xb1 [0; 1; 2; 3] ++ whole xb2 [4; 5; 6; 7]).
+Definition lifeA2 : list plabel := [PStart] ++ lift (whole xb3 [10000; 10001]).
+Definition lifeB : list plabel := lift (segs 9 3) ++ [PStart] ++ lift (whole xb4 [8; 9; 10; 11]).
+
+Lemma label_reuse_across_restart_refuted :
+  exists k c lA1 lA2 lB i,
+    let restart := [PStep (CBase LCrash); PStep (CBase LRestart)] in
+    let p1 := prun k (pinit c) lA1 in
+    let p2 := prun k (pinit c) (lA1 ++ lA2) in
+    let p3 := prun k (pinit c) (lA1 ++ lA2 ++ restart) in
+    let p4 := prun k (pinit c) (lA1 ++ lA2 ++ restart ++ lB) in
+    no_pcrash (lA1 ++ lA2) /\ no_pcrash lB /\ p_ok p4 = true /\
+    In i (live (p_s p1)) /\ rows_of (dirs (p_s p1)) i = [mkEv 0 0 0; mkEv 1 0 0; mkEv 2 0 0; mkEv 3 0 0] /\
+    ~ In i (live (p_s p2)) /\ ~ has_dir (dirs (p_s p2)) i /\ In i (p_lab p2) /\
+    p_lab p3 = [] /\ alloc0 (p_s p3) = 9 /\
+    In (PStep (CWrite (mkBatch i [8; 9; 10; 11] [0]))) lB /\
+    In i (live (p_s p4)) /\ rows_of (dirs (p_s p4)) i = [mkEv 8 0 0; mkEv 9 0 0; mkEv 10 0 0; mkEv 11 0 0].
+Proof.
+  exists 4, 1, lifeA1, lifeA2, lifeB, 10000. cbv zeta.
+  split; [apply no_pcrash_b; vm_compute; reflexivity|]. split; [apply no_pcrash_b; vm_compute; reflexivity|].
   split; [vm_compute; reflexivity|].
-  split; [apply memb_false_notin; vm_compute; reflexivity|]. split; [apply memb_false_notin; vm_compute; reflexivity|].
+  split; [apply memb_true_in; vm_compute; reflexivity|]. split; [vm_compute; reflexivity|].
+  split; [apply memb_false_notin; vm_compute; reflexivity|].
   split; [apply has_dirb_false_not; vm_compute; reflexivity|].
-  split; [vm_compute; reflexivity|].
-  split; [apply memb_true_in; vm_compute; reflexivity|]. split; [apply memb_true_in; vm_compute; reflexivity|].
-  vm_compute; reflexivity.
+  split; [apply memb_true_in; vm_compute; reflexivity|].
+  split; [vm_compute; reflexivity|]. split; [vm_compute; reflexivity|].
+  split; [unfold lifeB, lift, whole; rewrite !in_app_iff; right; right; left; reflexivity|].
+  split; [apply memb_true_in; vm_compute; reflexivity|]. vm_compute; reflexivity.
+Qed.
+
+(** What the repair does not cover inside a lifetime: an output id whose batch did
+    not reach its index entry (index save failed, no crash) is not remembered.
+    Capacity 1, k = 3: [0;1] -> 10000 is written but not indexed; segment 2; the
+    next round plans [0;1;2] -> 10000 again: [batch_ok_fresh] accepts it, the guard
+    of [CWrite] (no directory of that name) does not - the leftover, never
+    published directory is overwritten.  (Observed on the engine with an injected
+    index-save failure.) *)
+Definition failed_p : list plabel :=
+  lift (seg1 0 ++ seg1 1) ++ [PStart; PStep (CWrite (mkBatch 10000 [0; 1] [0]))] ++ lift (seg1 2) ++ [PStart].
+
+Example failed_batch_id_retaken_example :
+  let p := prun 3 (pinit 1) failed_p in
+  let b := mkBatch 10000 [0; 1; 2] [0] in
+  no_pcrash failed_p /\ p_ok p = true /\ index (p_s p) = [(0, [0]); (1, [0]); (2, [0])] /\
+  batch_ok_fresh (p_routs p ++ p_lab p) (p_rix p) 3 b = true /\
+  has_dirb (dirs (p_s p)) 10000 = true /\ cstep_ok (p_s p) (CWrite b) = false /\
+  ~ In 10000 (live (p_s p)) /\ outs (failed_p ++ [PStep (CWrite b)]) = [10000; 10000].
+Proof.
+  cbv zeta. split; [apply no_pcrash_b; vm_compute; reflexivity|].
+  do 5 (split; [vm_compute; reflexivity|]).
+  split; [apply memb_false_notin; vm_compute; reflexivity|]. vm_compute; reflexivity.
+Qed.
+
+(** Non-vacuity of the lifetime theorems: the C05 example history with its two
+    rounds marked satisfies [p_ok] without a crash label. *)
+Example ids_fresh_example :
+  let h := lift (map CBase ls_3) ++ [PStart] ++ lift (whole b_31 [1]) ++ [PStart] ++ lift (whole b_32 [0; 2]) in
+  no_pcrash h /\ p_ok (prun 2 (pinit 2) h) = true /\ outs h = [10000; 10001] /\
+  map sid (dirs (p_s (prun 2 (pinit 2) h))) = [10000; 10001].
+Proof.
+  cbv zeta. split; [apply no_pcrash_b; vm_compute; reflexivity|]. vm_conj.
 Qed.
 
 (** Known finding CrashLeftoverDirectoryBecomesLive.  (a) capacity 1: crash right
